@@ -405,6 +405,12 @@ def leak_paths(func, acq_stmt, target_text, via=None, release_nodes=None):
                 rel.add(g.node_for(n))
         if isinstance(n, ast.Delete) and any(dotted(x) in al for x in n.targets):
             rel.add(g.node_for(n))
+        # `with <alias>:` — the object's own context-manager protocol closes it on every way out of the block
+        if isinstance(n, ast.With) and via is None and any(dotted(it.context_expr) in al for it in n.items):
+            try:
+                rel.add(g.node_for(n))
+            except KeyError:
+                pass
     if release_nodes is not None:
         rel = set(release_nodes)
     a0 = g.node_for(acq_stmt)
